@@ -183,7 +183,9 @@ def injections(gen, cid, o, full=False):
                         o3 = gen.obj(other, optional_p=1.0)
                     except (IndexError, ValueError, KeyError):
                         o3 = {}
-                    cand3 = sorted(k for k in o3 if k not in mine and k not in ("spec_version", "extensions"))
+                    # (not spec_version / id: parse() decides the version of the text by these two keys, so with them the text IS an
+                    #  object of the other version and nothing is custom about it)
+                    cand3 = sorted(k for k in o3 if k not in mine and k not in ("spec_version", "id", "extensions"))
                     if cand3:
                         k3 = r.choice(cand3)
                         mut(lambda x: at(x, path).__setitem__(k3, o3[k3]),
